@@ -16,6 +16,7 @@ DRIVER = {"srcs": ["harness/c10_driver.cc"], "sdk": False,
           # reported as the known finding instead of stopping the whole run at the first such case.
           "flags": ["-fno-sanitize=nonnull-attribute"]}
 TRIVIAL_TAGS = {"empty"}
+IMPL_TIMEOUT = 300     # a broken unwinding loop in Detach never terminates: report it instead of waiting half an hour
 ASSUMPTIONS = [
     "thread_local gives every thread its own Stack object (language guarantee): the model keeps one world per thread; "
     "isolation is a theorem about that model and is evidenced on the implementation by 2-4 real concurrent threads per "
